@@ -98,8 +98,9 @@ def run(facts, rep, tier):
                     # resolve a local bound to a literal / format!
                     e2 = prov.peel(fexpr)
                     if e2.get("k") == "path" and e2.get("res") == "local":
-                        for ln, _ in nodes(h["body"], "let"):
-                            if ln["pat"].get("k") == "bind" and ln["pat"]["name"] == e2["path"] and ln.get("init") is not None:
+                        from lib import binding_let
+                        for ln in [binding_let(h, e2)]:
+                            if ln is not None and ln["pat"].get("k") == "bind" and ln.get("init") is not None:
                                 for x, _ in walk(ln["init"]):
                                     if x.get("k") == "lit" and "str" in x["v"]:
                                         texts.append(x["v"]["str"])
@@ -208,7 +209,9 @@ def run(facts, rep, tier):
     if gtn and look:
         h, n = look[0]
         key = src(n["args"][0]).lstrip("&")
-        lets = {x["pat"]["name"]: src(x["init"]) for x, _ in nodes(h["body"], "let") if x["pat"].get("k") == "bind" and x.get("init") is not None}
+        from lib import binding_let
+        bl_ = binding_let(h, n["args"][0])
+        lets = {key: src(bl_["init"])} if bl_ is not None and bl_.get("init") is not None else {}
         a = re.search(r"sanitize\(&?\w+, (Case::\w+)\)", src(gtn[0]["body"]))
         b = re.search(r"sanitize\(&?\w+, (Case::\w+)\)", lets.get(key, ""))
         ok = bool(a and b) and a.group(1) == b.group(1)
